@@ -49,6 +49,7 @@ func init() {
 			{ID: "C19-R23", Title: "methods of strings and byte slices call their Go namesake", Floor: 10, Run: methodsCallTheirGoNamesake},
 			{ID: "C19-R24", Title: "what a walk enters it leaves on every path", Floor: 2, Run: whatIsEnteredIsLeft},
 			{ID: "C19-R25", Title: "regexp methods answer with the regexp", Floor: 1, Run: regexpMethodsAnswerWithTheRegexp},
+			{ID: "C19-R26", Title: "a codec writes into storage of its own", Floor: 1, Run: aCodecWritesIntoStorageOfItsOwn},
 		},
 	})
 }
